@@ -23,6 +23,7 @@ type AbsGen struct {
 	Profile string
 	NoReap  bool // endpoints have no reap / prepared-query command
 	TxnKV   bool // transactions carry KV and session verbs only (the Txn endpoint pre-validates catalog verbs beyond the FSM)
+	Delays  bool // some sessions carry a lock delay
 	NoSerf  bool // a running leader reaps nodes that carry a serfHealth check but are no serf members
 }
 
@@ -80,6 +81,12 @@ func (g *AbsGen) kvCmd() M {
 		c["s"] = g.pick(sessIds)
 		if g.R.Intn(15) == 0 {
 			c["s"] = ""
+		}
+		if g.Delays && op == "lock" {
+			// go for a key inside its lock-delay window when there is one
+			if d := DelayKeys(g.Store(), 0); len(d) > 0 && g.R.Intn(2) == 0 {
+				c["k"] = keyJ(g.pick(d))
+			}
 		}
 	case "delete-tree":
 		c["k"] = keyJ(g.pick(WidePrefixes))
@@ -171,8 +178,12 @@ func (g *AbsGen) sessCmd() M {
 			}
 		}
 	}
-	return M{"t": "sess", "op": "create", "id": g.pick(free), "node": g.pick(nodeNms), "beh": g.pick([]string{"release", "delete", "", "release"}),
+	c := M{"t": "sess", "op": "create", "id": g.pick(free), "node": g.pick(nodeNms), "beh": g.pick([]string{"release", "delete", "", "release"}),
 		"checks": checks, "name": g.pick([]string{"", "sn", "sm"})}
+	if g.Delays && g.R.Intn(2) == 0 {
+		c["delay"] = "yes" // the session carries the maximum lock delay (60s)
+	}
+	return c
 }
 
 func (g *AbsGen) txnOp() M {
